@@ -78,7 +78,7 @@ type SpecFile struct {
 var blockKW = map[string]bool{"func": true, "iface": true, "extern": true, "spec": true, "ghost": true, "pred": true, "lemma": true, "data": true, "axiom": true}
 var clauseKW = map[string]bool{"requires": true, "ensures": true, "invariant": true, "assigns": true, "nopanic": true, "mode": true, "inline": true,
 	"pure": true, "assumed": true, "loop": true, "props": true, "trace": true, "fresh": true, "assume": true, "unroll": true, "class": true,
-	"noinline": true, "returns": true, "event": true, "havoc": true, "panics": true, "bounded": true, "check": true, "opaque": true, "maxpaths": true, "frame": true, "modifies": true, "reads": true, "trusted": true, "ghostset": true, "ghostvar": true, "cbrequires": true, "cbupdate": true, "aftercall": true, "borrowed": true, "callbacks": true, "params": true, "defer": true, "expectfail": true}
+	"noinline": true, "returns": true, "event": true, "havoc": true, "panics": true, "bounded": true, "check": true, "opaque": true, "maxpaths": true, "frame": true, "modifies": true, "reads": true, "trusted": true, "ghostset": true, "ghostvar": true, "cbrequires": true, "cbupdate": true, "aftercall": true, "borrowed": true, "precall": true, "trustcalls": true, "callbacks": true, "params": true, "defer": true, "expectfail": true}
 
 func parseSpecFile(path string) ([]*Block, error) {
 	data, err := os.ReadFile(path)
@@ -165,7 +165,7 @@ func parseSpecFile(path string) ([]*Block, error) {
 				}
 			case "props":
 				cur.Props = append(cur.Props, strings.Fields(strings.ReplaceAll(rest, ",", " "))...)
-			case "requires", "ensures", "assume", "check", "ghostvar", "borrowed":
+			case "requires", "ensures", "assume", "check", "ghostvar", "borrowed", "precall":
 				cur.Clauses = append(cur.Clauses, cl)
 			case "cbrequires", "cbupdate", "aftercall":
 				// "<param> [label] : expr"  /  "<param> : var = expr"
@@ -206,7 +206,7 @@ func parseSpecFile(path string) ([]*Block, error) {
 		}
 		for _, cl := range all {
 			switch cl.Kind {
-			case "requires", "ensures", "invariant", "assume", "check", "cbrequires", "cbupdate", "aftercall", "borrowed":
+			case "requires", "ensures", "invariant", "assume", "check", "cbrequires", "cbupdate", "aftercall", "borrowed", "precall":
 				e, err := parseSExpr(cl.Text)
 				if err != nil {
 					return nil, fmt.Errorf("%s:%d: %v in %q", cl.File, cl.Line, err, cl.Text)
